@@ -1253,7 +1253,7 @@ rrul_fill_mly(echs_instant_t *restrict tgt, size_t nti, rrulsp_t rr)
 
 		/* months to start earlier (or later for a negative shift),
 		 * in whole periods, INTERVAL counts from the proto month */
-		long int back = (tmp > 0) + (tmp - 1) / 30;
+		long int back = tmp > 0 ? 1 + (tmp - 1) / 30 : tmp / 31;
 		long int mi = (long int)y * 12 + (m - 1);
 
 		if (back > 0) {
